@@ -1,16 +1,22 @@
 """C08: converters preserve chart content exactly, from any source state.
 All 16 converters (+ O2JToSM.convert_merge) are run on source charts built by random histories (fresh, rate-changed,
 edited through the stack, filtered, reverse-sorted, appended to, deep-copied); ConvertBase.cast is wrapped from the
-harness process to record the mapping it is called with; Coq re-runs the cast model on the source frames (corr) and
-evaluates the content-preservation oracle on the implementation's target charts (spec)."""
+harness process to record the mapping it is called with; Coq re-runs the cast model on the source frames and runs
+`conv_run` of the GENERATED description of the converter (harness/tables/convert.py -> Tables.convert) on the source
+charts, comparing with the charts the implementation returned (corr), and evaluates the content-preservation oracle on
+the implementation's target charts (spec)."""
 import copy
+import dataclasses
+import math
 from fractions import Fraction as Fr
 
+import numpy as np
 import pandas as pd
 
 from .. import coqfmt as F
 from .. import frames as FR
 from .. import maps as M
+from ..tables import convert as CV
 
 ID = "C08"
 RUNNER = "Corr.RunC08"
@@ -21,21 +27,44 @@ PROPS_FILE = "Props/C08.v"
 PROPS_MODULE = "Props.C08"
 RULE = ("each of the 16 converters (and convert_merge) x random source charts of the source game (0-5 rows per list, empty lists, "
         "ties, SV lists for osu/Quaver, 1-3 charts for StepMania/O2Jam mapsets) x a random history of the source (none, rate, stack "
-        "edit, filter, reverse sort, append, deepcopy, combinations) x shift argument for the BMS targets; non-trivial = some source "
-        "list has >= 2 rows; distinct by hash of canonical JSON")
+        "edit, filter, reverse sort, append, deepcopy, combinations) x shift argument for the BMS targets; per case the whole source "
+        "(lists as frames with labels, every declared attribute of chart and mapset) and the whole result are handed to Coq; "
+        "non-trivial = some source list has >= 2 rows; distinct by hash of canonical JSON")
 ASSUMPTIONS = [
-    "metadata strings are ASCII (shift_jis / unidecode are library oracles and are not modelled)",
-    "difficulty name: the target's difficulty-name field must contain the source's difficulty name (converters add prefixes such as 'Level ')",
+    "metadata strings are ASCII: shift_jis encode/decode and unidecode are library oracles, modelled as the identity on ASCII and as "
+    "'not modelled' (outside chart_wfb) elsewhere",
+    "difficulty name: the target's difficulty-name attribute must CONTAIN the source's difficulty name (converters add prefixes such as "
+    "'Level '; StepMania targets receive it in `description` because `difficulty` is an enumeration; StepMania sources give `difficulty`)",
+    "BMS has no creator attribute: converters from / to BMS are not asked to carry one (encoded in src_role / tgt_role of Converters.v)",
+    "values not modelled are taken from the implementation's own output (oracle argument of conv_run): the key-count derived attributes "
+    "(circle_size, mode, chart_type), StepMania's offset in QuaToSM, BMSToOsu's hitsound_file column; the property does not speak of them",
+    "a list of charts, a list of one-chart StepMania mapsets and one merged mapset are all compared as the sequence of their charts; "
+    "O2JMapSet.level_name is modelled as level[position of the chart] (charts of a mapset are distinct objects)",
     "values are dyadic rationals so that rate changes in the history are exact",
 ]
-TRUSTED = ["harness/frames.py, harness/maps.py; the wrapper around ConvertBase.cast that records its arguments"]
+TRUSTED = ["harness/tables/convert.py: the TRANSLATOR of the convert() bodies (Python ast -> Tables.convert descriptions); it alone decides "
+           "which statement is a cast / metadata assignment / shift / guard and which loop shape a function has; everything it does not "
+           "recognise exactly is emitted as SUnknown (fails conv_okb); its output is compared per case with the implementation through conv_run",
+           "harness/frames.py, harness/maps.py; the wrapper around ConvertBase.cast that records its arguments; the attribute / list "
+           "serialisation of whole charts in harness/props/c08.py",
+           "the role tables src_role / tgt_role and the reference name ids of coq/Convert/Converters.v (which attribute is a game's title, "
+           "artist, creator, difficulty name)"]
 MANIFEST = dict(
-    text="Coq theorem about the model of ConvertBase.cast / TimedList.empty for ALL source frames (any labels, any row order): the target has "
-         "exactly the declared fields, as many rows, every mapped column carries the source values positionally, the others the defaults, "
-         "nothing missing; tied to the 16 converters by correspondence (the recorded cast mapping is re-run in Coq on the source frames) and "
-         "by the content-preservation oracle evaluated in Coq on every produced target chart, over sources built by random histories.",
-    note="Trusted: Coq kernel+VM, harness (chart construction, cast recorder, snapshots); shift_jis/unidecode oracles; metadata compared as interned strings.",
-    technique="Coq proof of cast exactness + vm_compute correspondence and content oracle per converter",
+    text="Coq theorems: (1) ConvertBase.cast / TimedList.empty are exact for ALL source frames (any labels, any row order); (2) every "
+         "converter DESCRIPTION that passes the boolean check conv_okb maps EVERY source chart of its domain to a target chart whose hits, "
+         "holds, tempo points and (when both games have them) scroll velocities carry, row by row in the source's order, the source's "
+         "offset / column(+explicit shift) / length / bpm / multiplier, whose lists are exactly the target class's lists with exactly its "
+         "declared columns, with no missing value under a non-NaN default, whose metadata assignments all took effect and whose title / "
+         "artist / creator / difficulty name hold the source's text; one target chart per source chart, in order; source labels "
+         "irrelevant. The descriptions of the 16 converters and convert_merge are re-translated from the Python source on every run "
+         "(fail-closed: unrecognised statement -> SUnknown) and the obligation `forallb conv_okb converters = true` plus the exact list of "
+         "17 names is re-proved by vm_compute; per case the real converter's whole output is compared in Coq with conv_run of the "
+         "generated description, the recorded cast mapping is re-run, and the content oracle is evaluated on every produced chart.",
+    note="Trusted: Coq kernel+VM; the AST translator harness/tables/convert.py (fail-closed, output checked by correspondence); harness "
+         "(chart construction, cast recorder, snapshots, serialisation); shift_jis/unidecode oracles (ASCII only); role tables of "
+         "Converters.v. Key-count derived attributes and computed columns come from the implementation (oracle) - outside the property.",
+    technique="Coq proof over translated converter descriptions (fail-closed AST translator + vm_compute obligation on the live tree) + "
+              "cast exactness + vm_compute correspondence of whole conversions + content oracle per converter",
     design="4/C08")
 
 CONVERTERS = ["BMSToOsu", "BMSToQua", "BMSToSM", "O2JToBMS", "O2JToOsu", "O2JToQua", "O2JToSM", "OsuToBMS", "OsuToQua",
@@ -51,7 +80,7 @@ def _split(conv):
 
 
 def generate(rng, tier):
-    n = 6 if tier == "quick" else 150
+    n = 9 if tier == "quick" else 150
     cases = []
     for conv in CONVERTERS + ["O2JToSM.merge"]:
         sg, tg = _split(conv.split(".")[0])
@@ -152,6 +181,90 @@ def _flatten(tg, res):
     return [(None, res)]
 
 
+
+# ------------------------------------------------------------------ whole charts for conv_run (Convert/Converters.v)
+def _mval_json(v, it):
+    """an attribute value of a chart / mapset object -> tagged JSON (Coq `mval`)"""
+    if v is None:
+        return ["none"]
+    if isinstance(v, (bool, np.bool_)):
+        return ["bool", bool(v)]
+    if isinstance(v, (int, np.integer)):
+        return ["int", int(v)]
+    if isinstance(v, (float, np.floating)):
+        v = float(v)
+        if math.isnan(v) or math.isinf(v):
+            return ["other", it.get(repr(v))]
+        f = Fr(v)
+        return ["float", [f.numerator, f.denominator]]
+    if isinstance(v, str):
+        return ["text", [ord(c) for c in v]]
+    if isinstance(v, bytes):
+        return ["bytes", list(v)]
+    if isinstance(v, list):
+        if all(isinstance(e, str) for e in v):
+            return ["texts", [[ord(c) for c in e] for e in v]]
+        if all(isinstance(e, (int, np.integer)) and not isinstance(e, (bool, np.bool_)) for e in v):
+            return ["ints", [int(e) for e in v]]
+    return ["other", it.get(v)]
+
+
+def _mval_coq(j):
+    t = j[0]
+    if t == "none":
+        return "MNone"
+    if t == "bool":
+        return f"MBool {F.boolean(j[1])}"
+    if t == "int":
+        return f"MInt {F.z(j[1])}"
+    if t == "float":
+        return f"MFloat {F.q(Fr(j[1][0], j[1][1]))}"
+    if t == "text":
+        return "MText " + F.lst([F.z(c) for c in j[1]])
+    if t == "bytes":
+        return "MBytes " + F.lst([F.z(c) for c in j[1]])
+    if t == "texts":
+        return "MTexts " + F.lst([F.lst([F.z(c) for c in e]) for e in j[1]])
+    if t == "ints":
+        return "MInts " + F.lst([F.z(c) for c in j[1]])
+    if t == "other":
+        return f"MOther {F.z(j[1])}"
+    raise ValueError(t)
+
+
+def _meta_json(obj, on_set, it):
+    """every declared attribute of a chart / mapset object (not its lists / charts)"""
+    if obj is None or not dataclasses.is_dataclass(obj):
+        return []
+    names = sorted((f.name for f in dataclasses.fields(obj) if f.name not in ("objs", "maps")), key=CV.field_id)
+    return [[on_set, CV.field_id(n), _mval_json(getattr(obj, n), it)] for n in names]
+
+
+def _chart_json(m, container, it):
+    lists = sorted(((CV.list_id(n), FR.frame_json(l.df, it)) for n, l in m.objs.items()), key=lambda p: p[0])
+    return {"lists": [[i, fj] for i, fj in lists], "meta": _meta_json(m, False, it) + _meta_json(container, True, it)}
+
+
+def _meta_coq(meta):
+    return F.lst([f"(({F.boolean(b)}, {F.z(f)}), {_mval_coq(v)})" for b, f, v in meta])
+
+
+def _chart_coq(cj):
+    lists = F.lst([f"({F.z(i)}, {FR.frame_coq(fj)})" for i, fj in cj["lists"]])
+    return f"(mkChart {lists} {_meta_coq(cj['meta'])})"
+
+
+def _default_strings(out_maps, it):
+    """the numbers under which this case interns the string defaults the target list classes declare"""
+    seen = {}
+    for tm in out_maps:
+        for l in tm.objs.values():
+            for _, (_, dflt) in l._item_class()._props.items():
+                if isinstance(dflt, str) and dflt not in seen:
+                    seen[dflt] = it.get(dflt)
+    return [[[ord(c) for c in s], i] for s, i in sorted(seen.items())]
+
+
 def execute(case):
     import reamber.algorithms.convert as C
     from reamber.algorithms.convert.ConvertBase import ConvertBase
@@ -168,6 +281,7 @@ def execute(case):
     for k, m in enumerate(maps):
         _set_meta(sg, container, m, case["meta"], k)
     src_before = [FR.frame_json(l.df, it) for m in maps for l in m.objs.values()]
+    run_src = {"set_meta": _meta_json(container, True, it), "charts": [_chart_json(m, None, it) for m in maps]}
     src_meta = [_get_meta(sg, container, m, k, as_source=True) for k, m in enumerate(maps)]
 
     records = []
@@ -227,8 +341,14 @@ def execute(case):
                     meta.append({"field": field, "want": want[j], "got": got[j], "w": it.get("diffok"), "g": it.get("diffok" if ok else "diffbad")})
                 else:
                     meta.append({"field": field, "want": want[j], "got": got[j], "w": it.get(want[j]), "g": it.get(got[j])})
+    import inspect
+    rb = inspect.signature(conv.convert_merge if merge else conv.convert).parameters.get("raise_bad_mode")
+    raise_flag = kwargs.get("raise_bad_mode", rb.default if rb is not None else False)
+    run = {"conv": CV.conv_id(conv_name), "raise": bool(raise_flag),
+           "strs": _default_strings([tm for _, tm in outs], it), "src": run_src,
+           "impl": [_chart_json(tm, cont, it) for cont, tm in outs]}
     return {"pairs": pairs, "others": others, "meta": meta, "n_src": len(maps), "n_out": len(outs),
-            "src_before": src_before, "src_after": src_after, "hist": case["hist"]}
+            "src_before": src_before, "src_after": src_after, "hist": case["hist"], "run": run}
 
 
 # ------------------------------------------------------------------ Coq side
@@ -247,14 +367,20 @@ def _mapping_coq(mp):
 def emit(case, out):
     if "exc" in out:
         # a converter that raises on a valid source: no chart produced
-        return "CConv 0 [] [] [(CStr 1%Z, CStr 2%Z)] 1%nat 0%nat [] []"
+        return "CConv 0 [] [] [(CStr 1%Z, CStr 2%Z)] 1%nat 0%nat [] [] None"
     pairs = F.lst([f"(mkPair {FR.frame_coq(p['src'])} {FR.frame_coq(p['tgt'])} {F.lst([F.z(c) for c in p['declared']])} "
                    f"{FR.row_coq(p['defaults'])} {_mapping_coq(p['mapping'])})" for p in out["pairs"]])
     others = F.lst([f"({FR.frame_coq(o['tgt'])}, {F.lst([F.z(c) for c in o['declared']])})" for o in out["others"]])
     meta = F.lst([f"(CStr {F.z(m['w'])}, CStr {F.z(m['g'])})" for m in out["meta"]])
     sb = F.lst([FR.frame_coq(f) for f in out["src_before"]])
     sa = F.lst([FR.frame_coq(f) for f in out["src_after"]])
-    return f"CConv {F.q(Fr(case['shift']))} {pairs} {others} {meta} {F.nat(out['n_src'])} {F.nat(out['n_out'])} {sb} {sa}"
+    r = out["run"]
+    strs = F.lst([f"({F.lst([F.z(c) for c in t])}, {F.z(i)})" for t, i in r["strs"]])
+    args = f"(mkArgs {F.q(Fr(case['shift']))} {F.boolean(r['raise'])} {strs})"
+    src = f"(mkSrcSet {_meta_coq(r['src']['set_meta'])} {F.lst([_chart_coq(c) for c in r['src']['charts']])})"
+    run = f"(Some (mkConvRun {F.z(r['conv'])} {args} {src} {F.lst([_chart_coq(c) for c in r['impl']])}))"
+    return (f"CConv {F.q(Fr(case['shift']))} {pairs} {others} {meta} {F.nat(out['n_src'])} {F.nat(out['n_out'])} "
+            f"{sb} {sa} {run}")
 
 
 def nontrivial(case, out):
